@@ -90,6 +90,18 @@ Theorem C03_progress : forall P cfg s, Pwf P -> reachable P cfg s ->
 Proof. exact progress. Qed.
 Print Assumptions C03_progress.
 
+(* ... and the turn waits never close a cycle (a delivery that waits for its turn holds nothing, and only the head of a
+   queue is ever waited for): the acyclicity hypothesis on handler-mutex waits alone suffices.  The ordering of
+   Async+Sequential deliveries adds no way to deadlock. *)
+Theorem C03_progress_mutex_waits_only : forall P cfg s, Pwf P -> reachable P cfg s ->
+  forall rank : actor -> nat,
+  (forall a h rest b, assoc_get (code s) a = Some (ILock h :: rest) -> assoc_get (seqlocks s) (r_id h) = Some b -> rank b < rank a) ->
+  (forall a rest, assoc_get (code s) a <> Some (ICrashed :: rest)) ->
+  (exists a i rest, assoc_get (code s) a = Some (i :: rest)) ->
+  exists b s' ls, mstep P cfg s b = Some (s', ls).
+Proof. exact progress_mutex_waits_only. Qed.
+Print Assumptions C03_progress_mutex_waits_only.
+
 (* the documented exception: a synchronous Sequential handler publishes an event that is delivered back to itself;
    the goroutine then waits for the mutex it holds itself, for ever *)
 Theorem C03_self_delivery_exception :
